@@ -143,35 +143,12 @@ impl DataAggregator {
 
     #[verifier::external_body]
     fn finalize(self) -> (r: (RawXorbData, Vec<MDBFileInfo>))
-        requires self.agg_wf(), /*@C15*/ self.within_limits(),
-        ensures
-            xorb_wf(r.0, self.chunks@),
-            xorb_le_limits(r.0),
-            self.chunks@.len() >= 1 ==> xorb_within_limits(r.0),
-            r.1@.len() == self.pending_file_info@.len(),
-            forall|k: int| 0 <= k < r.1@.len() ==> file_resolved(#[trigger] self.pending_file_info@[k], r.1@[k], r.0.cas_info.metadata.cas_hash),
-            forall|k: int, i: int| 0 <= k < r.1@.len() && 0 <= i < r.1@[k].segments@.len() ==> (#[trigger] r.1@[k].segments@[i]).cas_hash != zero_hash(),
-            forall|k: int| 0 <= k < r.1@.len() ==> segs_ok((#[trigger] r.1@[k]).segments@, Seq::<MerkleHash>::empty()),
-            forall|k: int| 0 <= k < r.1@.len() ==> flatten((#[trigger] r.1@[k]).segments@, Seq::<MerkleHash>::empty()) == self.den(k),
+//@ include prelude/c_agg_finalize.rs
     { unimplemented!() }
 
     #[verifier::external_body]
     fn merge_in(&mut self, other: DataAggregator)
-        requires
-            old(self).agg_wf(), other.agg_wf(), xorb_config_ok(),
-            /*@C15*/ old(self).chunks@.len() + other.chunks@.len() <= spec_MAX_XORB_CHUNKS(),
-            /*@C15*/ old(self).num_bytes + other.num_bytes <= spec_MAX_XORB_BYTES(),
-            spec_MAX_XORB_CHUNKS() <= spec_MAX_XORB_BYTES(),
-        ensures
-            final(self).agg_wf(), final(self).within_limits(),
-            final(self).chunks@ == old(self).chunks@ + other.chunks@,
-            final(self).num_bytes == old(self).num_bytes + other.num_bytes,
-            final(self).pending_file_info@.len() == old(self).pending_file_info@.len() + other.pending_file_info@.len(),
-            forall|k: int| 0 <= k < old(self).pending_file_info@.len() ==> (#[trigger] final(self).pending_file_info@[k]) == old(self).pending_file_info@[k],
-            forall|k: int| 0 <= k < other.pending_file_info@.len() ==>
-                file_shifted(#[trigger] other.pending_file_info@[k], final(self).pending_file_info@[old(self).pending_file_info@.len() + k], old(self).chunks@.len() as int),
-            forall|k: int| 0 <= k < old(self).pending_file_info@.len() ==> #[trigger] final(self).den(k) == old(self).den(k),
-            forall|k: int| 0 <= k < other.pending_file_info@.len() ==> final(self).den(old(self).pending_file_info@.len() + k) == #[trigger] other.den(k),
+//@ include prelude/c_agg_merge_in.rs
     { unimplemented!() }
 }
 
